@@ -513,7 +513,7 @@ func (r *Runner) FlatBurst(k int) {
 // (read through hook H1), and whether the quantiser's trained state is stored.
 func (r *Runner) VecKeysProj() {
 	for _, p := range r.Cfg.Props {
-		if p.Quant == nil || (p.Type != models.IndexTypeVectorFlat && p.Type != models.IndexTypeVectorVamana) {
+		if p.Type != models.IndexTypeVectorFlat && p.Type != models.IndexTypeVectorVamana {
 			continue
 		}
 		var vs, qs []int
@@ -552,6 +552,11 @@ func (r *Runner) VecKeysProj() {
 		}
 		kind, trigger, fixed := "product", 0, 0
 		switch {
+		case p.Metric == models.DistanceHamming || p.Metric == models.DistanceJaccard:
+			// (these metrics are served by the binary store with the fixed threshold 0.5, whatever the schema says)
+			kind, fixed = "binary", 1
+		case p.Quant == nil || p.Quant.Type == models.QuantizerNone:
+			kind = "plain" // (no quantiser: full vectors only)
 		case p.Quant.Type == models.QuantizerBinary && p.Quant.Binary != nil:
 			kind, trigger = "binary", p.Quant.Binary.TriggerThreshold
 			if p.Quant.Binary.Threshold != nil {
